@@ -55,7 +55,7 @@ func (securityScheme SecurityScheme) MarshalJSON() ([]byte, error) {
 	if x := securityScheme.TokenURL; x != "" {
 		m["tokenUrl"] = x
 	}
-	if x := securityScheme.Scopes; len(x) != 0 {
+	if x := securityScheme.Scopes; x != nil {
 		m["scopes"] = x
 	}
 	if x := securityScheme.Tags; len(x) != 0 {
